@@ -128,7 +128,7 @@ ASSUMPTIONS = [
 TRUSTED = ['stubs/array', 'stubs/atomic', 'C mirror struct of the class layout (checked by the layout harness)', 'rewrite rules R4,R5,R9,R11']
 
 MUTANTS = [
-    dict(name='get: blockInd mask off by one', file=PL, find=r'(PiggyList\(std::size_t initialbitsize\)\s*: BLOCKBITS.*?std::size_t blockInd = \(nindex\) & \(\(1 << blockNum\))( - 1\))', repl=r'\1 - 2)', expect=r'piggylist\.get :: .*postcondition'),
+    dict(name='get: blockInd mask off by one', file=PL, find=r'(PiggyList\(std::size_t initialbitsize\)\s*: BLOCKBITS.*?std::size_t blockInd = \(nindex\) & \(\(1 << blockNum\))( - 1\))', repl=r'\1 - 2)', expect=r'piggylist\.(get|ri_get|ri_insertAt)'),
     dict(name='createNode: container_size not updated', file=PL, find=r'(std::size_t createNode\(\) \{.*?)container_size \+= allocsize;', repl=r'\1', expect=r'piggylist\.createNode'),
     dict(name='append: allocsize not doubled', file=PL, find=r'(std::size_t append\(T element\) \{.*?)allocsize <<= 1;', repl=r'\1', expect=r'piggylist\.append'),
     dict(name='createNode: returns new size', file=PL, find=r'(std::size_t createNode\(\) \{.*?)return new_index;', repl=r'\1return new_index + 1;', expect=r'piggylist\.createNode :: .*postcondition'),
